@@ -86,7 +86,7 @@ fn gen_formula(rng: &mut Rng, allow_fix: bool, maxnames: u64) -> (GF, String, Ve
     (gf, text, names)
 }
 
-const WIDE_POOL: [&str; 9] = ["abcdefg", "\u{e9}", "\u{fc}n\u{ef}c\u{f6}d\u{e9}", "x_long_name_0", "\u{65e5}\u{672c}", "\u{3a9}mega'", "a", "b", "sixsix"];
+const WIDE_POOL: [&str; 10] = ["a_rather_long_variable_name_of_41_chars__", "abcdefg", "\u{e9}", "\u{fc}n\u{ef}c\u{f6}d\u{e9}", "x_long_name_0", "\u{65e5}\u{672c}", "\u{3a9}mega'", "a", "b", "sixsix"];
 
 const FILTER_SPELLINGS: [&str; 15] = ["true", "True", "t", "T", "1", "false", "False", "f", "F", "0", "any", "Any", "a", "A", "*"];
 
